@@ -113,15 +113,15 @@ CLAIMS = {
     ),
     "C07": (
         "property-based testing (rapid) against an independent breadth-first reference model (exact, range-free universes) and validity predicates with Maven's VersionRange as range oracle (all universes)",
-        "Generated Maven universes and roots are resolved; on universes without ranges the graph must equal (harness isomorphism labeller) the graph of a reference model written from the statement: nearest declaration wins, root dependencyManagement overrides transitive versions, exclusions accumulate along the creating path, test/optional/provided only from the root, war/ear/rar not traversed; on all universes predicates are checked: one version per artifact key, every range edge points inside its range (maven-artifact VersionRange), no edge to an excluded artifact, no transitive test/optional/provided edge, war/ear/rar-only nodes have no out-edges. Holds on everything explored; not a proof.",
+        "Generated Maven universes and roots are resolved; on universes without ranges the graph must equal (harness isomorphism labeller) the graph of a reference model written from the statement: nearest declaration wins, root dependencyManagement overrides transitive versions, exclusions accumulate along the creating path, test/optional/provided only from the root, war/ear/rar not traversed; on all universes predicates are checked: one version per artifact key, every range edge points inside its range (maven-artifact VersionRange), no edge to an excluded artifact, no transitive test/optional/provided edge, war/ear/rar-only nodes have no out-edges. Holds on everything explored; not a proof. On all universes nine predicates are checked, among them that every transitive edge to an artifact the root manages carries the managed version and the documented order of preference between soft versions and ranges (tolerant of requirements made by versions that are no longer in the graph). One recorded finding (two versions of one artifact when a node is shared between two types of it) is recognised by its mechanism and counted.",
         "Trusts the harness reference model and maven-artifact 3.8.7's VersionRange. The property speaks of returned graphs: resolutions that end in an error (missing version, or a dependency back on the root's own artifact at another version) are counted as outside it.",
-        "DESIGN.md §7 C07",
+        "DESIGN.md §7 C07, §12.2, §12.6",
     ),
     "C08": (
         "property-based testing (rapid) with validity predicates over the returned graph; specifier satisfaction and pip's prerelease rule computed by packaging (SpecifierSet.filter); marker truth known by construction",
         "Generated PyPI universes and roots are resolved; whenever the graph carries no error: one node per package with the root never replaced, every requirement whose marker is true (given the extras requested on the incoming edges) has an edge to the selected version, that version satisfies the requirement (prereleases allowed) and lies in packaging's SpecifierSet(conjunction of all specifiers on the package).filter(all versions) - pip's prerelease rule -, requirements with false markers have no edge, every edge stems from a requirement, every node is reachable. Asserted where packaging 26.x and 21.3 agree. Holds on everything explored; not a proof.",
         "Trusts packaging for specifier semantics. Edges left by a replaced pin (resolvelib 0.7 as vendored by the modelled pip keeps the requirement information of a replaced candidate) are recognised and counted, not asserted. Three listed findings are stepped around by narrow classes.",
-        "DESIGN.md §7 C08",
+        "DESIGN.md §7 C08, §12.2, §12.6",
     ),
 }
 
